@@ -176,6 +176,10 @@ class Run:
                 self.open_dump.pop(h, None)
                 return "ok"
             if tok == "w":
+                if z._write_txn is not None or z._write_event is not None or len(z._write_waiters) > 0:
+                    # Zone.writer() would block for ever (single-threaded history): a previous write transaction
+                    # was never deregistered
+                    raise RuntimeError("writer() would block: a finished write transaction is still registered")
                 repl = (self.zkind == "btree" and len(self.committed) == 1) or (len(self.committed) % 5 == 4)
                 self.wtxn = z.writer(replacement=repl)
                 return "ok"
@@ -569,7 +573,19 @@ def finish(ctx, case, fails, surface, exercised, txn=None):
 
 
 # ------------------------------------------------------------------------------------------------
+class Hang(Exception):
+    pass
+
+
+def _alarm(signum, frame):
+    raise Hang("no result within 30 s")
+
+
 def eval_case(ctx: Ctx, case: dict):
+    import signal
+
+    signal.signal(signal.SIGALRM, _alarm)
+    signal.alarm(30)
     try:
         if case["kind"] == "history":
             return eval_history(ctx, case)
@@ -583,6 +599,8 @@ def eval_case(ctx: Ctx, case: dict):
         what = f"{case['kind']} case on a {case.get('zone')} zone raised {e!r} in {where.name} ({os.path.basename(where.filename)}:{where.lineno})"
         ctx.fail(sig, what, {"kind": case["kind"], "case": case})
         return [(sig, what)]
+    finally:
+        signal.alarm(0)
     raise ValueError(case["kind"])
 
 
